@@ -3,6 +3,7 @@ package interp
 import (
 	"fmt"
 	"go/token"
+	"go/types"
 
 	"gosmt/sym"
 
@@ -111,4 +112,39 @@ func init() {
 		}
 		return nil, nil
 	})
+}
+
+// sort.Slice / sort.SliceStable (reflect-based in the library): insertion sort driven by the
+// program's own less function; symbolic comparisons fork like any other branch. For equal keys
+// the order may differ from the library's pdqsort (sort.Slice promises no stability anyway).
+func init() {
+	sortSlice := func(in *Interp, fn *ssa.Function, a []Value) (Value, *iPanic) {
+		iv := a[0].(IfaceV)
+		s, ok := iv.V.(SliceV)
+		if !ok {
+			panic(unsupported{"sort.Slice of a non-slice"})
+		}
+		less := a[1].(*Closure)
+		et := under(iv.T).(*types.Slice).Elem()
+		n := in.conInt(s.Len, "sort.Slice length")
+		st := in.elemStride(s.O, et)
+		at := func(i int) Pointer { return Pointer{O: s.O, Off: s.Off + i*st} }
+		for i := 1; i < n; i++ {
+			for j := i; j > 0; j-- {
+				r, ip := in.callClosure(less, []Value{in.B.Int64(int64(j)), in.B.Int64(int64(j - 1))})
+				if ip != nil {
+					return nil, ip
+				}
+				if !in.branch(r.(*sym.Term)) {
+					break
+				}
+				x, y := in.load(at(j), et), in.load(at(j-1), et)
+				in.store(at(j), et, y)
+				in.store(at(j-1), et, x)
+			}
+		}
+		return nil, nil
+	}
+	reg("sort.Slice", sortSlice)
+	reg("sort.SliceStable", sortSlice)
 }
